@@ -170,7 +170,8 @@ func findFunctionCallViolation(
 	ctx *testOnlyContext,
 	call *ast.CallExpr,
 ) *TestOnlyViolation {
-	switch fun := call.Fun.(type) {
+	// (pkg.Func)() and (obj.Method)() are calls of the parenthesised function as well
+	switch fun := ast.Unparen(call.Fun).(type) {
 	case *ast.Ident:
 		// Direct function call: CreateMockData()
 		funcName := fun.Name
